@@ -302,6 +302,7 @@ struct World
       sinkbuf[l] = std::make_unique<sim::StreamBuf<char>>();
       sink[l] = std::make_unique<std::ostream>(sinkbuf[l].get());
     }
+    name_variant() = static_cast<unsigned>(plan.cfg.getu("nv") % 6);
     int const root = static_cast<int>(plan.cfg.getu("root") % 7);
     model = Model(root);
     level_formatters = static_cast<unsigned>(plan.cfg.get("lsf", 63)) & 63U;
@@ -396,6 +397,8 @@ void generate(sim::Rng &rng, sim::Plan &p, bool)
   if (faulty)
     p.cfg.set("faulty", 1);
   p.cfg.set("root", static_cast<long>(rng.below(7)));
+  if (rng.chance(1, 3))
+    p.cfg.set("nv", static_cast<long>(rng.range(1, 5)));
   if (rng.chance(1, 3))
     p.cfg.set("lsf", static_cast<long>(rng.chance(1, 3) ? 0 : rng.below(64)));
   static char const *const names[] = {"set", "get", "obj_ctx", "obj_loc", "obj_parent", "obj_destroy", "level", "enabled", "log"};
